@@ -355,6 +355,10 @@ class ProtocolContext:
                     IsInIdle, expired=True
                 )  # set_exception() will cause InvalidStateError
             raise exc.ProtocolSendFailed(msg) from err  # make msg *before* state reset
+        except asyncio.CancelledError:  # the caller has given up (fut is cancelled too)
+            if self._cmd is cmd:  # stop sending it, and let the next command start
+                self.set_state(IsInIdle, expired=True)
+            raise
 
         try:
             return fut.result()
@@ -370,6 +374,10 @@ class ProtocolContext:
         if self._fut is not None and not self._fut.done():
             self._lock.release()
             return
+
+        if isinstance(self._state, WantEcho | WantRply):  # the caller has just timed out
+            self._lock.release()  # or given up: its own handler will end this command,
+            return  # and then check the buffer again
 
         if isinstance(self._state, Inactive):  # connection lost since this was scheduled
             self._lock.release()  # what is queued waits for a connection (or times out)
